@@ -705,6 +705,34 @@ func init() {
 	})
 }
 
+// ENVCONF: standard-library facilities (sync, sync/atomic, sort, bytes,
+// strings, unicode, utf8, bytes.Buffer, strings.Builder, the string-view
+// cast) run by the engine on symbolic inputs and replayed natively: every
+// path's observation must agree.
+func init() {
+	register(&CheckSpec{
+		ID:          "ENVCONF",
+		Props:       []string{"ENVCONF"},
+		ValidateAll: true,
+		Obligs: func(tier string) []Oblig {
+			var obs []Oblig
+			for _, c := range []int{0, 1, 2, 3, 4, 5, 6, 7, 10, 12} {
+				obs = append(obs, Oblig{Harness: "H_env", Args: []int{c, 2}})
+			}
+			for k := 0; k < 24; k++ {
+				if k == 20 {
+					continue // strings.NewReplacer: generic machinery with a lazy sync.Once build; not needed
+				}
+				obs = append(obs, Oblig{Harness: "H_env", Args: []int{8, 2, k}})
+			}
+			for k := 0; k < 20; k++ {
+				obs = append(obs, Oblig{Harness: "H_env", Args: []int{9, 2, k}})
+			}
+			return obs
+		},
+	})
+}
+
 func init() {
 	register(&CheckSpec{
 		ID:          "RECONF",
